@@ -1266,6 +1266,130 @@ fn layout_fpg_mirror(c: &Case, exp: &[Exp]) -> Result<(), String> {
     }
 }
 
+/// the walk fields of a case line (`chain <tech> exp:.. [win:..] <walk fields>`; corpus cases of earlier
+/// rounds have no `win:` field)
+fn walk_fields_of(case: &str) -> Option<&str> {
+    let third = case.split(' ').filter(|s| !s.is_empty()).nth(3).unwrap_or("");
+    let n = if third.starts_with("win:") { 5 } else { 4 };
+    let f: Vec<&str> = case.splitn(n, ' ').collect();
+    if f.len() == n { Some(f[n - 1]) } else { None }
+}
+
+/// the tie for the canonical STACK CFI generator (`gen_chain`, technique `cfi`): the generator's
+/// parameters are recovered from the case — `s0` from the stack pointer, per frame its size in words from
+/// the stack-pointer deltas of the chain, `saves` from the STACK CFI record covering the frame's lookup
+/// address, the saved frame pointer from the chain, `tail` from the length of the stack — and the model
+/// evaluates `gcfiWords` / `gcfiChain` on them (MdModel/Walk/LayoutGen.lean) together with EVERY
+/// hypothesis of `walk_layout_cfi_generated` (`hyp=1`) and, for worlds of one module, the record-level
+/// side condition of `walk_layout_cfi_generated_one_module` (`one=1`: records inside the module and pairwise
+/// disjoint, linear search instead of range tables) resp. of `walk_layout_cfi_generated_world` for any number
+/// of modules (`rec=1`): stack pointer, stack bytes and chain must be the generated ones
+fn layout_cfi_mirror(case: &str, c: &Case, exp: &[Exp]) -> Result<(), String> {
+    let p = ptr_of(&c.arch);
+    let (base, bytes) = c.stack.as_ref().ok_or("no stack")?;
+    let reg = |n: &str| c.regs.iter().find(|(k, _)| k == n).map(|x| x.1);
+    let (sp, ip) = (reg(sp_name(&c.arch)).ok_or("no sp")?, reg(ip_name(&c.arch)).ok_or("no ip")?);
+    let idx = |a: u64| -> Result<u64, String> {
+        let off = a.checked_sub(*base).ok_or(format!("address {a} below the stack"))?;
+        if off % p != 0 {
+            return Err(format!("address {a} is not word-aligned"));
+        }
+        Ok(off / p)
+    };
+    // does the STACK CFI record covering `la` save the frame pointer (a second `^` rule)
+    let saves_at = |la: u64| -> Result<bool, String> {
+        for (mi, (mb, msz, name)) in c.mods.iter().enumerate() {
+            if la < *mb || la - *mb >= *msz as u64 {
+                continue;
+            }
+            let recs = c.syms.iter().find(|(n, _)| n == name).map(|x| &x.1).ok_or(format!("module {mi} without symbols"))?;
+            for r in recs {
+                if let Rec::C { addr, size, rules } = r {
+                    if mb + addr <= la && la < mb + addr + *size as u64 {
+                        return Ok(rules.matches('^').count() == 2);
+                    }
+                }
+            }
+        }
+        Err(format!("no STACK CFI record covers {la}"))
+    };
+    let s0 = idx(sp)?;
+    let mut s = s0;
+    let mut la = ip;
+    let mut frames = vec![];
+    for e in exp {
+        let esp = idx(e.sp)?;
+        let n = esp.checked_sub(s).ok_or(format!("stack pointer word {esp} below the callee's {s}"))?;
+        let saves = saves_at(la)?;
+        let fpv = if saves && n > 0 { e.fp.ok_or("frame without frame pointer")? } else { 0 };
+        frames.push(format!("{n}:{}:{}:{fpv}", saves as u8, e.ret));
+        s = esp;
+        la = e.ret.wrapping_sub(adj_of(&c.arch));
+    }
+    let nwords = bytes.len() as u64 / p;
+    let tail = nwords.checked_sub(s).ok_or("stack ends inside the outermost frame")?;
+    let walk_fields = walk_fields_of(case).ok_or("case line too short")?;
+    let req = format!("chain layout cfi {base} {s0} {tail} {} {}", if frames.is_empty() { "-".to_string() } else { frames.join(",") }, walk_fields);
+    let want = format!(
+        "hyp=1 one={} rec=1 sp={sp} stack:{} exp:{}",
+        if c.mods.len() == 1 { "1" } else { "-" },
+        hex(bytes),
+        exp.iter().map(|e| format!("{},{},{}", e.ret, e.sp, e.fp.map(|x| x.to_string()).unwrap_or("-".into()))).collect::<Vec<_>>().join("|")
+    );
+    match ask_model(&req) {
+        None => Ok(()),
+        Some(got) if got == want => Ok(()),
+        Some(got) => Err(format!("layout({}) = {} expected {}", &req[..req.len().min(200)], &got[..got.len().min(300)], &want[..want.len().min(300)])),
+    }
+}
+
+/// the tie for the scan-only generator (`gen_chain`, technique `scan`): the generator's parameters are
+/// recovered from the case — `s0` from the stack pointer, per frame its junk words (the stack words between
+/// the callee's stack pointer and the return-address slot) and return address, `tail` from the length of the
+/// stack — and the model evaluates `gscanWords` / `gscanChain` on them (MdModel/Walk/LayoutGenScan.lean)
+/// together with EVERY hypothesis of `walk_layout_scan_generated` / `walk_layout_scan_generated32` (`hyp=1`):
+/// stack pointer, stack bytes and chain must be the generated ones
+fn layout_scan_mirror(case: &str, c: &Case, exp: &[Exp]) -> Result<(), String> {
+    let p = ptr_of(&c.arch);
+    let (base, bytes) = c.stack.as_ref().ok_or("no stack")?;
+    let reg = |n: &str| c.regs.iter().find(|(k, _)| k == n).map(|x| x.1);
+    let sp = reg(sp_name(&c.arch)).ok_or("no sp")?;
+    let idx = |a: u64| -> Result<u64, String> {
+        let off = a.checked_sub(*base).ok_or(format!("address {a} below the stack"))?;
+        if off % p != 0 {
+            return Err(format!("address {a} is not word-aligned"));
+        }
+        Ok(off / p)
+    };
+    let nwords = bytes.len() as u64 / p;
+    let word = |i: u64| -> u64 { (0..p).fold(0u64, |v, k| v | (bytes[(i * p + k) as usize] as u64) << (8 * k)) };
+    let s0 = idx(sp)?;
+    let mut s = s0;
+    let mut frames = vec![];
+    for e in exp {
+        let esp = idx(e.sp)?;
+        if esp <= s || esp > nwords {
+            return Err(format!("stack pointer word {esp} after the callee's {s} in a stack of {nwords} words"));
+        }
+        let junk: Vec<String> = (s..esp - 1).map(|i| word(i).to_string()).collect();
+        frames.push(format!("{}:{}", if junk.is_empty() { "-".to_string() } else { junk.join(".") }, e.ret));
+        s = esp;
+    }
+    let tail = nwords.checked_sub(s).ok_or("stack ends inside the outermost frame")?;
+    let walk_fields = walk_fields_of(case).ok_or("case line too short")?;
+    let req = format!("chain layout scan {base} {s0} {tail} {} {}", if frames.is_empty() { "-".to_string() } else { frames.join(",") }, walk_fields);
+    let want = format!(
+        "hyp=1 junk=1 sp={sp} stack:{} exp:{}",
+        hex(bytes),
+        exp.iter().map(|e| format!("{},{},{}", e.ret, e.sp, e.fp.map(|x| x.to_string()).unwrap_or("-".into()))).collect::<Vec<_>>().join("|")
+    );
+    match ask_model(&req) {
+        None => Ok(()),
+        Some(got) if got == want => Ok(()),
+        Some(got) => Err(format!("layout({}) = {} expected {}", &req[..req.len().min(200)], &got[..got.len().min(300)], &want[..want.len().min(300)])),
+    }
+}
+
 fn want_trust(tech: &str) -> FrameTrust {
     match tech {
         "fp" => FrameTrust::FramePointer,
@@ -1427,6 +1551,25 @@ impl Engine for Chain {
         if tech == "fp" && !(c.arch == "amd64" && c.os == "windows") {
             match layout_fpg_mirror(&c, &exp) {
                 Ok(()) => res.tags.push(format!("layout-tied:fpg-{}", c.arch)),
+                Err(msg) => res.oracle.push(("layout-not-mirrored".into(), msg)),
+            }
+        }
+        // canonical STACK CFI chains (all seven context kinds / modes): `gcfiWords` / `gcfiChain`,
+        // `preCfi_layout` / `walk_layout_cfi_generated` (C04Gen.lean), all hypotheses evaluated by the model
+        if tech == "cfi" {
+            match layout_cfi_mirror(case, &c, &exp) {
+                Ok(()) => {
+                    res.tags.push(format!("layout-tied:cfi-{}", c.arch));
+                    res.tags.push(format!("cfi-side-from-records:{}-module", c.mods.len()));
+                }
+                Err(msg) => res.oracle.push(("layout-not-mirrored".into(), msg)),
+            }
+        }
+        // scan-only chains (every architecture; MIPS32 with its four skipped words): `gscanWords` / `gscanChain`,
+        // `preScan_layout` / `walk_layout_scan_generated[32]` (C04Gen.lean), all hypotheses evaluated by the model
+        if tech == "scan" {
+            match layout_scan_mirror(case, &c, &exp) {
+                Ok(()) => res.tags.push(format!("layout-tied:scan-{}", c.arch)),
                 Err(msg) => res.oracle.push(("layout-not-mirrored".into(), msg)),
             }
         }
